@@ -2,6 +2,8 @@
 package checks
 
 import (
+	"encoding/json"
+
 	"package-operator.run/internal/packages/zzverif/report"
 )
 
@@ -47,3 +49,12 @@ func Register(c *Check) { Registry[c.ID] = c }
 
 // One is a helper for Shards.
 func One(string) int { return 1 }
+
+// Decode converts a JSON-decoded value (map) back into a typed struct.
+func Decode(in any, out any) error {
+	b, err := json.Marshal(in)
+	if err != nil {
+		return err
+	}
+	return json.Unmarshal(b, out)
+}
